@@ -181,9 +181,22 @@ def ete_active_kinds(d, run):
 
 
 def outline(d, run):
-    """what the class differential compares: enter / exit / executes, outcomes, states after each call"""
-    g = [x for x in ghost(d, run.items) if x[0] in ('enter', 'exit', 'exec', 'cand', 'ret', 'raised')]
-    return g, run.states_after
+    """what the class differential compares: enter / exit / offers / executes, the outcomes of the calls issued by the
+    history (calls made from inside callbacks return at once on a queued machine; where that return lands relative to the
+    other callbacks of a gathered list is not constrained), states after each call"""
+    top, depth, out = set(), 0, []
+    for x in ghost(d, run.items):
+        if x[0] == 'api':
+            if depth == 0:
+                top.add(x[1])
+            depth += 1
+        elif x[0] in ('ret', 'raised'):
+            depth -= 1
+            if x[1] in top:
+                out.append(x)
+        elif x[0] in ('enter', 'exit', 'exec', 'cand'):
+            out.append(x)
+    return out, run.states_after
 
 
 # ---------------------------------------------------------------------------------------------
@@ -257,8 +270,11 @@ def judge_case(prop, stream_name, d, model_ans, runs, mon_answers, enum_states=F
         # the async classes evaluate all conditions of a transition (C07 licenses that): scripted outcomes are
         # per invocation, so runs are comparable only when no transition has two conditions
         single_cond = all(len(t['conds']) <= 1 for _s, _e, _i, t in d.all_trans())
+        # callbacks of one list run concurrently on the async classes: once one of them really suspends, the order in
+        # which callbacks of that list queue further events is not the synchronous one (C07 licenses that)
+        reorder = bool(d.suspend) and any(v[0] for v in d.script.values())
         for cls, (r, err) in sorted(runs.items()):
-            if 'Async' in cls and not single_cond:
+            if 'Async' in cls and (not single_cond or reorder):
                 continue
             if cls != 'HierarchicalMachine' and r is not None and not err and outline(d, r) != ref:
                 out.append(Failure('correspondence', 'class_differential:' + cls, dict(case, cls=cls),
@@ -682,7 +698,8 @@ def shrink_steps(case):
             c = copy.deepcopy(d)
             c[key] = []
             yield mk(c)
-    if d['queued']:
+    if d['queued'] and not any(v[0] for _k, v in d['script']):
+        # only without re-entrant commands: on an unqueued machine callbacks must not trigger events
         c = copy.deepcopy(d)
         c['queued'] = False
         yield mk(c)
